@@ -18,12 +18,13 @@ CODES = {
     6: "dec(model) != outcome of Go UnmarshalWithParams on arbitrary bytes",
     7: "C16 monitor: Go Unmarshal panicked or did not terminate",
     71: "C16 monitor: wrongly-typed input (identifier octets are not the ones the target type and parameters call for) accepted as a value",
+    72: "C16 monitor: truncated input (the outer header announces more contents than there are) accepted as a value",
 }
 # which codes decide which property: (correspondence codes, monitor codes)
 ROLE = {
     "C04": ([1], [3, 31, 5]),
     "C05": ([1, 2], [4, 41]),
-    "C16": ([6, 2], [7, 71]),
+    "C16": ([6, 2], [7, 71, 72]),
 }
 KNOWN_KEYS = {}
 PROPS = {"C04": "Ber/PropsC04.v", "C05": "Ber/PropsC05.v", "C16": "Ber/PropsC16.v"}
